@@ -46,7 +46,10 @@ def gen_trace(rng, kind):
         return {"cos": cos, "first_then": [2, 1], "kind": "busy2"}
     if kind == "syscall":       # 50 ms of wall time inside a system-call state: must not be suspended
         ms = rng.choice([30, 50, 80])
-        cos = [{"body": [{"i": "work", "n": 2}, {"i": "sysenter"}, {"i": "spin_ms", "ms": ms}, {"i": "sysexit"},
+        # inside the system-call state: wall time passes, and a SIGURG is delivered on the spot (a late signal)
+        inner = [{"i": "spin_ms", "ms": ms}, {"i": "raise"}]
+        rng.shuffle(inner)
+        cos = [{"body": [{"i": "work", "n": 2}, {"i": "sysenter"}] + inner + [{"i": "sysexit"},
                          {"i": "work", "n": rng.randrange(1, 9)}]},
                {"body": _short(rng)}]
         return {"cos": cos, "first_then": [0, 1], "kind": "syscall"}
@@ -77,7 +80,7 @@ def g_instr(i):
     k = i["i"]
     if k == "work":
         return "IWork %s" % gz(i["n"])
-    if k in ("spin_ms", "spin_flag", "set_flag"):
+    if k in ("spin_ms", "spin_flag", "set_flag", "raise"):
         return "IWork 0"
     return _INS[k]
 
@@ -150,7 +153,7 @@ PINNED = ["C22_node_iff_running", "C22_overdue_signalled", "C22_syscall_never_su
 RULE = ("harness built with the crate's `preemptive` feature; trace cases run one real Scheduler on the harness "
         "thread with the real monitor thread and real SIGURG: kinds busy (a body that computes until a sibling has "
         "run, 0-2 further siblings: needs a preemption, the sibling must complete first), busy2 (two busy bodies in "
-        "a row), syscall (30/50/80 ms of wall time spent inside a system-call state, then a sibling), short (1-5 "
+        "a row), syscall (30/50/80 ms of wall time spent inside a system-call state and a SIGURG raised on the spot there, then a sibling), short (1-5 "
         "bodies of work / yield / syscall sections); stress cases run 1-16 scheduler threads x 50-400 short "
         "yielding coroutines without recording; non-trivial = the trace shows a preemption or a system-call "
         "section, or a stress run did not end cleanly; distinct = distinct case")
